@@ -5,7 +5,10 @@
 //           in its post action (after every other post action).
 // Part (b): 0..7 uniquely named recording plugins; interleaved install / removePluginByName / getPluginByName /
 //           countPlugins / enable / disable / resetPlugins / run-one-test; the model is a std::vector of plugin ids.
-// Oracle:  (a) array model of the targets; (b) list model.  ASan guards the 32-entry table (a global with redzones).
+// Part (c): a run of 2..5 tests during which the chain changes: test phases and plugin pre/post actions install a plugin,
+//           remove one by name (newest, middle, oldest), enable / disable one or call resetPlugins.  Part (a) has a "lazy"
+//           variant in which the SetPointerPlugin itself is installed from inside a test of the run.
+// Oracle:  (a) array model of the targets; (b) list model; (c) list model + per-test snapshot, see part (c).  ASan guards the 32-entry table (a global with redzones).
 #include "common.h"
 #include <stdexcept>
 
@@ -29,7 +32,8 @@ void* g_target[NT];
 inline void* val(uint32_t v) { return (void*)(uintptr_t)(0x2000 + v); }
 inline void* base_val(int t) { return (void*)(uintptr_t)(0x1000 + (unsigned)t); }
 
-enum { S_REDIRECT, S_PLAIN, S_BURST };
+enum { S_REDIRECT, S_PLAIN, S_BURST, S_INSTALL_SETP };
+TestRegistry* g_a_reg; TestPlugin* g_a_setp;   // part (a), lazy mode: the SetPointerPlugin is installed from inside a test
 enum { O_PASS, O_FAIL, O_THROW_INT, O_THROW_STD };
 struct Step { int kind; int target; uint32_t value; int count; int stride; };
 struct Phase { std::vector<Step> steps; int outcome; };
@@ -45,6 +49,7 @@ public:
             case S_REDIRECT: UT_PTR_SET(g_target[st.target], val(st.value)); break;
             case S_PLAIN: g_target[st.target] = val(st.value); break;
             case S_BURST: for (int i = 0; i < st.count; i++) UT_PTR_SET(g_target[(st.target + i * st.stride) % NT], val(st.value + (uint32_t)i)); break;
+            case S_INSTALL_SETP: g_a_reg->installPlugin(g_a_setp); break;
             }
         }
         switch (p.outcome) {
@@ -115,6 +120,24 @@ int run_a(Reader& r, bool& nontrivial, std::string& desc) {
         for (int p = 0; p < 3; p++) { desc += sfmt("%s: ", phase_name(p)); scripts[(size_t)t].ph[p] = gen_phase(r, desc, last_target); }
         desc += "} ";
     }
+    // lazy mode: the SetPointerPlugin is installed during the run, at the end of a phase of test L; up to and including that
+    // test nothing is redirected (only plain writes) and every phase passes, so "restored after the test" is only claimed for
+    // tests that start with the plugin installed.  The plugin is then the newest one: its post action runs after the observer's,
+    // so those tests are judged by the observer's next pre sample / the state after the run.
+    int lazy_test = -1;
+    if (ntests >= 2 && r.below(3) == 2) {
+        lazy_test = (int)r.below((uint32_t)ntests - 1);
+        int lazy_phase = (int)r.below(3);
+        for (int t = 0; t <= lazy_test; t++) for (int p = 0; p < 3; p++) {
+            Phase& ph = scripts[(size_t)t].ph[p];
+            ph.outcome = O_PASS;
+            for (Step& st : ph.steps) { st.kind = S_PLAIN; st.count = 1; }
+        }
+        scripts[(size_t)lazy_test].ph[lazy_phase].steps.push_back(Step{S_INSTALL_SETP, 0, 0, 1, 0});
+        desc += sfmt("[lazy: tests 0..%d only write; SetPointerPlugin installed in %s of T%d] ", lazy_test, phase_name(lazy_phase), lazy_test);
+        verif::cls("a:lazy-set-pointer-plugin");
+        nontrivial = true;
+    }
     if (verif::g_explain) fprintf(stderr, "part a: %s\n", desc.c_str());
 
     // ---- reset the global state the case touches
@@ -125,7 +148,8 @@ int run_a(Reader& r, bool& nontrivial, std::string& desc) {
     Observer obs;
     TestRegistry reg;
     if (extra_before) reg.installPlugin(&q1);
-    reg.installPlugin(&setp);
+    g_a_reg = &reg; g_a_setp = &setp;
+    if (lazy_test < 0) reg.installPlugin(&setp);
     if (extra_between) reg.installPlugin(&q2);
     reg.installPlugin(&obs);                          // last installed: first pre action, last post action
     std::vector<ScriptShell> shells((size_t)ntests);
@@ -155,6 +179,7 @@ int run_a(Reader& r, bool& nontrivial, std::string& desc) {
                 for (int i = 0; i < reps && !aborted; i++) {
                     int tg = st.kind == S_BURST ? (st.target + i * st.stride) % NT : st.target;
                     void* v = val(st.kind == S_BURST ? st.value + (uint32_t)i : st.value);
+                    if (st.kind == S_INSTALL_SETP) continue;
                     if (st.kind == S_PLAIN) { cur[tg] = v; continue; }
                     if (filled >= SetPointerPlugin::MAX_SET) { aborted = true; overflow = true; failures++; break; }   // the documented limit
                     if (!redirected[tg]) { redirected[tg] = true; before[tg] = cur[tg]; }
@@ -172,7 +197,9 @@ int run_a(Reader& r, bool& nontrivial, std::string& desc) {
         if (failures) { nontrivial = true; verif::cls("a:nt:failing-test"); }
         verif::cls(filled == 0 ? "a:redirections:0" : filled < 8 ? "a:redirections:1-7" : filled < 32 ? "a:redirections:8-31" : "a:redirections:32");
 
-        const Sample& after = obs.post[(size_t)t];
+        Sample final_state;
+        if (lazy_test >= 0 && t >= lazy_test && t + 1 >= ntests) { for (int i = 0; i < NT; i++) final_state.v[i] = g_target[i]; final_state.failures = res.getFailureCount(); }
+        const Sample& after = (lazy_test >= 0 && t >= lazy_test) ? (t + 1 < ntests ? obs.pre[(size_t)t + 1] : final_state) : obs.post[(size_t)t];
         for (int i = 0; i < NT; i++) {
             if (after.v[i] == cur[i]) continue;
             if (redirected[i]) return verif::fail("C17:redirected-target-not-restored", "test %d redirected target %d %d time(s); after the post actions it is %p, before its first redirection it was %p (%d table entries%s)",
@@ -339,6 +366,214 @@ int run_b(Reader& r, bool& nontrivial, std::string& desc) {
     return c.check_chain("the whole history");
 }
 
+
+// =================================================================================================================
+// part (c): the chain changes WHILE a run of 2..5 tests is in progress
+//
+// Reference points (from the statement + TestRegistry::runAllTests / UtestShell::runOneTestInCurrentProcess):
+//   * a test's pre actions go to the plugins that are installed and enabled when its pre actions start, newest first;
+//   * its post actions go, in exactly the reverse order, to those of them that are still installed and enabled;
+//   * for a plugin whose status is changed *inside* that very test (installed, removed, enabled, disabled, reset, from a test
+//     phase or from another plugin's action) the statement leaves open whether it still/already takes part in that test:
+//     both are accepted (the unchanged code gives e.g. no post action to a plugin removed from the middle of the chain, but one
+//     to the removed newest plugin; none to a plugin installed in the test).  From the next test on the change is binding.
+// Only well-defined changes are generated: never a plugin that is already in the chain is installed, a plugin's action never
+// removes / disables / enables the plugin it belongs to.
+enum { C_INSTALL, C_REMOVE, C_ENABLE, C_DISABLE, C_RESET, C_REMOVE_NOBODY };
+struct COp { int kind; int k; int alt; };
+struct CPhase { std::vector<COp> ops; int outcome; };
+struct CTest { CPhase ph[3]; };
+struct CAction { int test; int plugin; bool post; COp op; };
+struct CRecord { bool started = false, in_test = false; std::vector<int> snapshot; std::vector<int> pre_log, post_log; bool touched_pre[NP], touched[NP]; };
+
+struct Mid;
+Mid* g_mid;
+class MidPlugin : public TestPlugin {
+public:
+    int id_;
+    MidPlugin(int id, const char* name) : TestPlugin(name), id_(id) {}
+    void preTestAction(UtestShell& t, TestResult&) CPPUTEST_OVERRIDE;
+    void postTestAction(UtestShell& t, TestResult&) CPPUTEST_OVERRIDE;
+};
+class MidTest : public Utest {
+public:
+    int idx_;
+    explicit MidTest(int idx) : idx_(idx) {}
+    void setup() CPPUTEST_OVERRIDE; void testBody() CPPUTEST_OVERRIDE; void teardown() CPPUTEST_OVERRIDE;
+};
+class MidShell : public UtestShell {
+public:
+    int idx_;
+    MidShell() : UtestShell("C17", "midrun", "c17_plugins.cpp", 2), idx_(0) {}
+    Utest* createTest() CPPUTEST_OVERRIDE { return new MidTest(idx_); }
+};
+
+struct Mid {
+    TestRegistry reg;
+    MidPlugin* pl[NP];
+    std::vector<int> chain; bool enabled[NP];
+    std::vector<CTest> tests; std::vector<CAction> actions; std::vector<CRecord> rec;
+    int cur = -1;
+    bool bad = false; std::string badsig, badmsg, trace;
+    int changes_before_last = 0;
+    Mid() { static const char* names[NP] = {"P0", "P1", "P2", "P3", "P4", "P5", "P6"}; for (int i = 0; i < NP; i++) { pl[i] = new MidPlugin(i, names[i]); enabled[i] = true; } g_mid = this; }
+    ~Mid() { for (int i = 0; i < NP; i++) delete pl[i]; g_mid = NULLPTR; }
+    int pos_of(int k) const { for (size_t i = 0; i < chain.size(); i++) if (chain[i] == k) return (int)i; return -1; }
+    void fail(const char* sig, const std::string& msg) { if (!bad) { bad = true; badsig = sig; badmsg = msg; } }
+    void touch(int k) { if (cur >= 0 && rec[(size_t)cur].in_test) rec[(size_t)cur].touched[k] = true; }
+    void check_chain(const char* after) {
+        std::vector<int> a; bool ok = true;
+        TestPlugin* p = reg.getFirstPlugin();
+        for (int steps = 0; ; steps++) {
+            if (p == NullTestPlugin::instance()) break;
+            int id = -1; for (int i = 0; i < NP; i++) if (p == pl[i]) id = i;
+            if (p == NULLPTR || id < 0 || steps > 2 * NP) { ok = false; break; }
+            a.push_back(id); p = p->getNext();
+        }
+        if (!ok || a != chain) fail("C17:plugin-chain-differs", sfmt("after %s (during a run) the registry holds %s, expected %s", after, render_chain(a).c_str(), render_chain(chain).c_str()));
+    }
+    // apply one change to the real registry and to the model; `self` = plugin whose action is executing (-1 in a test phase)
+    void apply(COp op, int self, const char* where) {
+        if (bad) return;
+        int k = op.k;
+        switch (op.kind) {
+        case C_INSTALL: {
+            int tries = 0; while (pos_of(k) >= 0 && tries < NP) { k = (k + 1) % NP; tries++; }
+            if (pos_of(k) >= 0) return;
+            reg.installPlugin(pl[k]); chain.insert(chain.begin(), k); touch(k);
+            trace += sfmt("%s:+P%d ", where, k); verif::cls("c:install-during-run"); break; }
+        case C_REMOVE: case C_REMOVE_NOBODY: {
+            if (op.kind == C_REMOVE && pos_of(k) < 0 && !chain.empty() && op.alt % 4 != 0) k = chain[(size_t)op.alt % chain.size()];   // mostly an installed one
+            if (op.kind == C_REMOVE && k == self) return;
+            int pos = op.kind == C_REMOVE ? pos_of(k) : -1;
+            reg.removePluginByName(op.kind == C_REMOVE ? pl[k]->getName().asCharString() : "nobody");
+            if (pos >= 0) { chain.erase(chain.begin() + pos); touch(k); }
+            trace += op.kind == C_REMOVE ? sfmt("%s:-P%d@%d ", where, k, pos) : sfmt("%s:-nobody ", where);
+            verif::cls(pos < 0 ? "c:remove-not-installed-during-run" : pos == 0 ? "c:remove-newest-during-run" : pos + 1 == (int)chain.size() + 1 ? "c:remove-oldest-during-run" : "c:remove-middle-during-run"); break; }
+        case C_ENABLE: case C_DISABLE: {
+            if (k == self) return;
+            bool en = op.kind == C_ENABLE;
+            if (enabled[k] != en) touch(k);
+            if (en) pl[k]->enable(); else pl[k]->disable();
+            enabled[k] = en;
+            trace += sfmt("%s:%sP%d ", where, en ? "en" : "dis", k); verif::cls(en ? "c:enable-during-run" : "c:disable-during-run"); break; }
+        case C_RESET: {
+            for (int id : chain) touch(id);
+            reg.resetPlugins(); chain.clear();
+            trace += sfmt("%s:reset ", where); verif::cls("c:reset-during-run"); break; }
+        }
+        if (cur >= 0 && cur + 1 < (int)tests.size()) changes_before_last++;
+        check_chain(where);
+    }
+    void begin_test(int idx) {
+        if (cur == idx && rec[(size_t)idx].started) return;
+        if (cur >= 0) rec[(size_t)cur].in_test = false;
+        cur = idx;
+        CRecord& rc = rec[(size_t)idx];
+        rc.started = true; rc.in_test = true;
+        for (int id : chain) if (enabled[id]) rc.snapshot.push_back(id);
+        trace += sfmt("| T%d %s: ", idx, render_chain(rc.snapshot).c_str());
+    }
+    void plugin_action(int id, UtestShell& t, bool post) {
+        int idx = static_cast<MidShell&>(t).idx_;
+        begin_test(idx);
+        (post ? rec[(size_t)idx].post_log : rec[(size_t)idx].pre_log).push_back(id);
+        for (const CAction& a : actions) if (a.test == idx && a.plugin == id && a.post == post) apply(a.op, id, sfmt("%s(P%d)", post ? "post" : "pre", id).c_str());
+    }
+    void phase(int idx, int p) {
+        begin_test(idx);
+        CRecord& rc = rec[(size_t)idx];
+        if (p == 0) for (int i = 0; i < NP; i++) rc.touched_pre[i] = rc.touched[i];   // the pre actions are over
+        const CPhase& ph = tests[(size_t)idx].ph[p];
+        for (const COp& op : ph.ops) apply(op, -1, phase_name(p));
+        switch (ph.outcome) {
+        case O_FAIL: FAIL("scripted failure"); break;
+        case O_THROW_INT: throw 42;
+        case O_THROW_STD: throw std::runtime_error("scripted exception");
+        default: break;
+        }
+    }
+};
+void MidPlugin::preTestAction(UtestShell& t, TestResult&) { g_mid->plugin_action(id_, t, false); }
+void MidPlugin::postTestAction(UtestShell& t, TestResult&) { g_mid->plugin_action(id_, t, true); }
+void MidTest::setup() { g_mid->phase(idx_, 0); }
+void MidTest::testBody() { g_mid->phase(idx_, 1); }
+void MidTest::teardown() { g_mid->phase(idx_, 2); }
+
+COp gen_cop(Reader& r, std::string& desc) {
+    uint32_t kind = r.below(8); int k = (int)r.below(NP);
+    COp op{C_INSTALL, k, 0};
+    if (kind <= 2) op.kind = C_INSTALL; else if (kind <= 4) { op.kind = C_REMOVE; op.alt = (int)r.below(64); } else if (kind == 5) op.kind = C_DISABLE; else if (kind == 6) op.kind = C_ENABLE;
+    else op.kind = r.below(4) == 0 ? C_RESET : C_REMOVE_NOBODY;
+    static const char* n[] = {"+", "-", "en", "dis", "reset", "-nobody"};
+    desc += (op.kind == C_RESET || op.kind == C_REMOVE_NOBODY) ? sfmt("%s ", n[op.kind]) : sfmt("%sP%d ", n[op.kind], k);
+    return op;
+}
+std::string render_ids(const std::vector<int>& v) { std::string s; for (int id : v) s += sfmt("P%d ", id); return s.empty() ? "(none)" : s; }
+
+int run_c(Reader& r, bool& nontrivial, std::string& desc) {
+    Mid m;
+    UtestShell::setRethrowExceptions(false);
+    int n0 = (int)r.below(5);
+    desc += "before the run: ";
+    for (int i = 0; i < n0; i++) { int k = (int)r.below(NP); int tries = 0; while (m.pos_of(k) >= 0 && tries < NP) { k = (k + 1) % NP; tries++; }
+        if (m.pos_of(k) < 0) { m.reg.installPlugin(m.pl[k]); m.chain.insert(m.chain.begin(), k); desc += sfmt("+P%d ", k); } }
+    int ndis = (int)r.below(3);
+    for (int i = 0; i < ndis; i++) { int k = (int)r.below(NP); m.pl[k]->disable(); m.enabled[k] = false; desc += sfmt("disP%d ", k); }
+    int ntests = 2 + (int)r.below(4);
+    m.tests.resize((size_t)ntests); m.rec.resize((size_t)ntests);
+    for (CRecord& rc : m.rec) for (int i = 0; i < NP; i++) rc.touched[i] = rc.touched_pre[i] = false;
+    for (int t = 0; t < ntests; t++) {
+        desc += sfmt("T%d{", t);
+        for (int p = 0; p < 3; p++) {
+            CPhase& ph = m.tests[(size_t)t].ph[p];
+            uint32_t n = r.below(4); int nops = n <= 1 ? 0 : (int)n - 1;
+            if (nops) desc += sfmt("%s: ", phase_name(p));
+            for (int i = 0; i < nops; i++) ph.ops.push_back(gen_cop(r, desc));
+            uint32_t o = r.below(8); ph.outcome = o < 6 ? O_PASS : (o == 6 ? O_FAIL : O_THROW_INT);
+            if (ph.outcome != O_PASS) desc += sfmt("%s:%s ", phase_name(p), outcome_name(ph.outcome));
+        }
+        desc += "} ";
+    }
+    int nact = (int)r.below(3);
+    for (int i = 0; i < nact; i++) {
+        CAction a; a.test = (int)r.below((uint32_t)ntests); a.plugin = (int)r.below(NP); a.post = r.flag();
+        desc += sfmt("[%s of P%d in T%d: ", a.post ? "post" : "pre", a.plugin, a.test); a.op = gen_cop(r, desc); desc += "] ";
+        m.actions.push_back(a);
+    }
+    if (verif::g_explain) fprintf(stderr, "part c: %s\n", desc.c_str());
+    m.check_chain("the installs before the run");
+    std::vector<MidShell> shells((size_t)ntests);
+    for (int t = ntests - 1; t >= 0; t--) { shells[(size_t)t].idx_ = t; m.reg.addTest(&shells[(size_t)t]); }
+    CaptureOutput out; TestResult res(out);
+    m.reg.runAllTests(res);
+    if (verif::g_explain) fprintf(stderr, "trace: %s\n", m.trace.c_str());
+    if (m.bad) return verif::fail(m.badsig.c_str(), "%s", m.badmsg.c_str());
+    if (m.changes_before_last) { nontrivial = true; verif::cls("c:nt:chain-changed-before-a-later-test-of-the-run"); }
+    for (int t = 0; t < ntests; t++) {
+        const CRecord& rc = m.rec[(size_t)t];
+        V_CHECK(rc.started, "C17:test-of-run-not-executed", "test %d of the run never started", t);
+        for (int phase = 0; phase < 2; phase++) {
+            const bool* open = phase == 0 ? rc.touched_pre : rc.touched;          // plugins whose participation in this test is left open
+            const std::vector<int>& log = phase == 0 ? rc.pre_log : rc.post_log;
+            std::vector<int> want, got;
+            for (int id : rc.snapshot) if (!open[id]) want.push_back(id);
+            if (phase == 1) want = std::vector<int>(want.rbegin(), want.rend());
+            bool dup = false, stranger = false; int seen[NP] = {0};
+            for (int id : log) { if (seen[id]++) dup = true; if (!open[id]) got.push_back(id); }
+            for (int id : log) if (!open[id]) { bool in = false; for (int w : rc.snapshot) if (w == id) in = true; if (!in) stranger = true; }
+            if (got != want || dup || stranger) {
+                std::string o; for (int i = 0; i < NP; i++) if (open[i]) o += sfmt("P%d ", i);
+                return verif::fail("C17:plugin-action-order-in-run", "test %d of a run of %d: %s actions went to [%s]; installed and enabled when its pre actions started: %s(newest first); changed inside this test (either way accepted): %s; so the %s actions of the others must be [%s]. trace: %s",
+                                   t, ntests, phase ? "post" : "pre", render_ids(log).c_str(), render_ids(rc.snapshot).c_str(), o.empty() ? "none" : o.c_str(), phase ? "post" : "pre", render_ids(want).c_str(), m.trace.c_str());
+            }
+        }
+    }
+    m.check_chain("the run");
+    if (m.bad) return verif::fail(m.badsig.c_str(), "%s", m.badmsg.c_str());
+    return 0;
+}
+
 }  // namespace
 
 extern "C" const char* verif_property(void) { return "C17"; }
@@ -347,8 +582,11 @@ extern "C" int verif_case(const uint8_t* data, size_t size) {
     Reader r(data, size);
     bool nontrivial = false; std::string desc;
     int rc;
-    if (r.below(2) == 0) { verif::cls("part:a-set-pointer"); desc = "a: "; rc = run_a(r, nontrivial, desc); }
-    else { verif::cls("part:b-chains"); desc = "b: "; rc = run_b(r, nontrivial, desc); }
+    static const char part_of[8] = {'a', 'b', 'c', 'b', 'a', 'c', 'c', 'a'};   // 0, 1, 3 keep the meaning they have in the corpus
+    char part = part_of[r.below(8)];
+    if (part == 'a') { verif::cls("part:a-set-pointer"); desc = "a: "; rc = run_a(r, nontrivial, desc); }
+    else if (part == 'b') { verif::cls("part:b-chains"); desc = "b: "; rc = run_b(r, nontrivial, desc); }
+    else { verif::cls("part:c-chain-changes-during-a-run"); desc = "c: "; rc = run_c(r, nontrivial, desc); }
     if (verif::g_explain) fprintf(stderr, "case: %s\n", desc.c_str());
     verif::note_case(nontrivial, r.h, [&] { return desc.substr(0, 600); });
     return rc;
